@@ -301,6 +301,46 @@ class ModelIndex:
         return out
 
 
+def annotation_allows_none(node):
+    if node is None:
+        return False
+    if isinstance(node, ast.Constant):
+        if node.value is None:
+            return True
+        if isinstance(node.value, str):
+            try:
+                return annotation_allows_none(ast.parse(node.value, mode="eval").body)
+            except SyntaxError:
+                return False
+        return False
+    if isinstance(node, ast.Name):
+        return node.id == "None"
+    if isinstance(node, ast.BinOp) and isinstance(node.op, ast.BitOr):
+        return annotation_allows_none(node.left) or annotation_allows_none(node.right)
+    if isinstance(node, ast.Subscript):
+        base = ast.unparse(node.value).split(".")[-1]
+        sl = node.slice
+        args = list(sl.elts) if isinstance(sl, ast.Tuple) else [sl]
+        if base == "Optional":
+            return True
+        if base == "Union":
+            return any(annotation_allows_none(a) for a in args)
+        if base == "Annotated":
+            return annotation_allows_none(args[0])
+    return False
+
+
+def code_field_annotations(pkg_dir, class_name):
+    """{wire key: {"annotation": text, "nullable": bool, "has_default": bool}} of one emitted model class"""
+    idx = ModelIndex(os.path.join(pkg_dir, "models"))
+    info = idx.classes.get(class_name)
+    if info is None:
+        return None
+    load = info["load"] or {}
+    py2json = {p: j for j, p in load.items()}
+    return {py2json.get(py, py): {"annotation": ast.unparse(ann), "nullable": annotation_allows_none(ann), "has_default": d} for py, ann, d in info["fields"]}
+
+
 def code_manifest(pkg_dir, doc):
     raw = (doc.get("components") or {}).get("schemas") or {}
     idx = ModelIndex(os.path.join(pkg_dir, "models"))
